@@ -1,0 +1,15 @@
+//go:build verif
+
+// Contracts for the bmverif deductive checker (comment-only; compiled only under -tags verif).
+
+package bmserialize
+
+//@ props C16
+
+//@ func NeededBits(num int) int
+//@   requires num <= pow2(62)
+//@   ensures zero: num <= 0 ==> result == 0
+//@   ensures adequate: num > 0 ==> result >= 1 && result <= 62 && num <= pow2(result)
+//@   ensures tight: num > 0 ==> (result == 1 || pow2(result - 1) < num)
+//@   loop 1: invariant 1 <= bits && bits <= 62 && (bits == 1 || pow2(bits - 1) < num) && num > 0 && num == old(num)
+//@   loop 1: decreases 63 - bits
